@@ -3,7 +3,7 @@ import itertools
 import numpy as np
 import impl
 from gen import grid, data, unc, material
-from .common import arr, tolist, relerr, keyword_call_differs, history_differs, confusable, inplace_history_differs
+from .common import arr, tolist, relerr, keyword_call_differs, history_differs, confusable, inplace_history_differs, Unchanged
 
 RK = ["S", "F", "FK", "DCS"]
 GK = ["g", "G", "GK"]
@@ -131,8 +131,15 @@ def evaluate_values(case):
         for Y in kinds:
             if Y == X:
                 continue
+            guard_in = Unchanged(xs, ys)
             try:
                 out, _u = conv(X, Y, xs, ys, None, kw)
+                if guard_in.violated():
+                    fails.append(f"{X}_to_{Y}: the call changes an array the caller passed in (a later conversion of the same array sees other data)")
+                    return fails
+                if isinstance(out, np.ndarray) and (np.shares_memory(out, xs) or np.shares_memory(out, ys)) and Y != X:
+                    fails.append(f"{X}_to_{Y}: the returned array shares memory with an input array")
+                    return fails
             except Exception as ex:  # noqa: BLE001
                 fails.append(f"{X}_to_{Y}: raises {type(ex).__name__} on a {len(xs)}-point grid without uncertainties ({str(ex)[:60]})")
                 continue
@@ -217,7 +224,11 @@ def evaluate_unc(case):
         for Y in kinds:
             if Y == X:
                 continue
+            guard_in = Unchanged(x, y, dy)
             v0, u0 = conv(X, Y, x, y, dy, kw)
+            if guard_in.violated():
+                fails.append(f"{X}_to_{Y}: the call changes an array the caller passed in (values or uncertainties)")
+                return fails
             kf = keyword_call_differs(impl.obj("Converter"), f"Converter.{X}_to_{Y}", [x, y, dy], kw, (v0, u0))
             if kf:
                 fails.append(kf)
